@@ -135,7 +135,7 @@ type decoration struct {
 // holds (a row count is never negative); "EQ(1,2)" is false.
 var decorations = []decoration{
 	{"e-true", "condition-true", []map[string]any{{"condition": "EQ(1,1)"}}, true},
-	{"e-true-status-message", "condition-true-user-status", []map[string]any{{"condition": "EQ(1,1)", "status": 409, "message": "custom abort"}}, true},
+	{"e-true-status-message", "condition-true-user-status", []map[string]any{{"condition": "EQ(1,1)", "status": 409, "msg": "custom abort"}}, true},
 	{"e-false-then-true", "condition-true", []map[string]any{{"condition": "EQ(1,2)"}, {"condition": "EQ(2,2)"}}, true},
 	{"e-rows-true", "condition-true", []map[string]any{{"condition": "GE(_all_rows_,0)"}}, true},
 	{"e-false", "condition-false", []map[string]any{{"condition": "EQ(1,2)"}}, false},
